@@ -296,11 +296,14 @@ func (e *Env) Tr(x Expr) TV {
 				return TV{T: v.lenT(), Ty: Type{K: KInt}}
 			}
 		}
-		if id, ok := x.X.(*EIdent); ok && strings.HasPrefix(id.Name, "$") {
+		if id, ok := x.X.(*EIdent); ok {
+			// loop specials ($it.pos) and attributes of iterator-valued results (r.prefix, r.opts, r.store, r.pos)
 			if v, ok := e.Vars[id.Name+"."+x.Name]; ok {
 				return v
 			}
-			panic("unknown loop special " + id.Name + "." + x.Name)
+			if strings.HasPrefix(id.Name, "$") {
+				panic("unknown loop special " + id.Name + "." + x.Name)
+			}
 		}
 		v := e.Tr(x.X)
 		if v.Ty.K != KStruct {
